@@ -206,4 +206,5 @@ def run(prog, rep, tier, cfg):
     # ---- error discipline: no Result produced in these crates is silently discarded
     X.no_dropped_results('K14', 'results-not-discarded', ['fil_actor_evm'], 'no Result of a call is discarded')
     X.tolerated_failures('K15', 'tolerated-failures', ['fil_actor_evm'], 'tolerated failures are the reviewed ones')
+    X.write_sites_preserved('K16', 'updates-present', 'fil_actor_evm', ['System.saved_state_root', 'System.nonce', 'System.bytecode', 'System.tombstone', 'System.slots', 'System.transient_slots', 'System.current_transient_data_lifespan'], 'state updates do not disappear')
 
